@@ -651,6 +651,53 @@ theorem kbounds (m : Nat) (e : Int) (h : wfn m e) : -308 ≤ floorLog10 m e ∧ 
   rw [this] at hge
   exact GE_mono_le _ _ _ _ hge
 
+/-- the doubles of the E-notation law with `d` decimals: finite, non-zero, and the last of the
+`d + 1` significant digits emitted has place value `10^-322` or more, i.e. `10^(d-322) ≤ |x|`
+(stated in units of `2^-1074`). Every normal double qualifies for `d ≤ 12` (`wfE_of_wfn`); so does
+every subnormal one from `10^(d-322)` on. Below that the decimal grid `10^-323` is about two
+subnormal steps wide and the law is false at some values (K2, `Props.C01.subnormal_E_counterexample`). -/
+def wfE (m : Nat) (e : Int) (d : Nat) : Prop :=
+  m ≠ 0 ∧ m < 2 ^ 53 ∧ -1074 ≤ e ∧ e ≤ 971 ∧ 10 ^ d * 2 ^ 1074 ≤ units (-1074) m e * 10 ^ 322
+
+theorem pow_factsE : (10 : Nat) ^ 12 * 2 ^ 1074 ≤ 2 ^ 52 * 10 ^ 322 ∧ 20 * (10 : Nat) ^ 322 ≤ 2 ^ 1074 := by
+  refine ⟨by decide +kernel, by decide +kernel⟩
+
+theorem wfE_of_wfn (m : Nat) (e : Int) (d : Nat) (h : wfn m e) (hd : d ≤ 12) : wfE m e d := by
+  obtain ⟨h1, h2, h3, h4⟩ := h
+  refine ⟨?_, h2, h3, h4, ?_⟩
+  · intro h0; subst h0
+    have := two_pow_pos 52; omega
+  · have a1 : 2 ^ 52 ≤ units (-1074) m e := by
+      show 2 ^ 52 ≤ m * 2 ^ (e - (-1074)).toNat
+      exact Nat.le_trans h1 (Nat.le_mul_of_pos_right _ (two_pow_pos _))
+    have a2 : (10 : Nat) ^ d ≤ 10 ^ 12 := Nat.pow_le_pow_right (by decide) hd
+    calc 10 ^ d * 2 ^ 1074 ≤ 10 ^ 12 * 2 ^ 1074 := Nat.mul_le_mul_right _ a2
+      _ ≤ 2 ^ 52 * 10 ^ 322 := pow_factsE.1
+      _ ≤ units (-1074) m e * 10 ^ 322 := Nat.mul_le_mul_right _ a1
+
+/-- the decimal exponent of a double admitted by `wfE` lies between `d - 322` and 308 -/
+theorem kboundsE (m : Nat) (e : Int) (d : Nat) (h : wfE m e d) (hd : d ≤ 12) :
+    (d : Int) - 322 ≤ floorLog10 m e ∧ floorLog10 m e ≤ 308 := by
+  obtain ⟨hm0, h2, h3, h4, h5⟩ := h
+  refine ⟨?_, klog_le_308 m e hm0 h2 h3 h4⟩
+  obtain ⟨s1, s2⟩ := floorLog10_spec m e hm0 h2 h3 h4
+  have eU : (-(-1074 : Int)).toNat = 1074 := by decide
+  apply Classical.byContradiction
+  intro hlt
+  apply s2
+  have hge : GE (2 ^ (-(-1074 : Int)).toNat) (units (-1074) m e) ((d : Int) - 322) := by
+    unfold GE
+    have z1 : ((d : Int) - 322).toNat = 0 := by omega
+    have z2 : (-((d : Int) - 322)).toNat = 322 - d := by omega
+    rw [z1, z2, Nat.pow_zero, Nat.mul_one, eU]
+    have hsplit : (10 : Nat) ^ 322 = 10 ^ (322 - d) * 10 ^ d := by
+      rw [← Nat.pow_add]; congr 1; omega
+    rw [hsplit, ← Nat.mul_assoc, Nat.mul_comm (10 ^ d)] at h5
+    exact Nat.le_of_mul_le_mul_right h5 (ten_pow_pos d)
+  have : (d : Int) - 322 = floorLog10 m e + 1 + (((d : Int) - 322 - floorLog10 m e - 1).toNat : Int) := by omega
+  rw [this] at hge
+  exact GE_mono_le _ _ _ _ hge
+
 /-- the half-ulp bound on the common scale -/
 theorem halfulp_scaled (prec : Nat) (emin emaxE : Int) (n : Nat) (nd : Int) (m' : Nat) (e' : Int)
     (hp : 1 ≤ prec) (hmin : emin ≤ 0) (h1 : -400 ≤ nd) (h2 : nd ≤ 400)
@@ -717,23 +764,19 @@ theorem acc_shift (N n0 B B' D : Nat) (h1 : N * B' = n0 * B) (h2 : B ≤ B')
 exponent, `r = round(x, d − k)`. Then the pair `(N, K)` printed for `r` has `d + 1` digits,
 reading the printed decimal `N·10^(K−d)` gives `r` back, and rounding `r` at its own decimal
 exponent gives `r` again. -/
-theorem sci_core (m : Nat) (e : Int) (h : wfn m e) (d : Nat) (hd : d ≤ 12) (m' : Nat) (e' : Int)
+theorem sci_core (m : Nat) (e : Int) (d : Nat) (h : wfE m e d) (hd : d ≤ 12) (m' : Nat) (e' : Int)
     (hr : nd53 (roundScaled m e ((d : Int) - floorLog10 m e)) ((d : Int) - floorLog10 m e) = some (m', e')) :
     RoundedOk m' e' ∧
     10 ^ d ≤ (sci m' e' d).1 ∧ (sci m' e' d).1 < 10 ^ (d + 1) ∧
-    -310 ≤ (sci m' e' d).2 ∧ (sci m' e' d).2 ≤ 320 ∧
+    -324 ≤ (sci m' e' d).2 ∧ (sci m' e' d).2 ≤ 320 ∧
     nd53 (sci m' e' d).1 ((d : Int) - (sci m' e' d).2) = some (m', e') ∧
     nd53 (roundScaled m' e' ((d : Int) - floorLog10 m' e')) ((d : Int) - floorLog10 m' e') = some (m', e') ∧
     floorLog10 m e - 1 ≤ floorLog10 m' e' ∧ floorLog10 m' e' ≤ floorLog10 m e + 1 ∧
     -- the digits printed are within half a unit (of their last place) of `x` itself
     2 * absdiff ((sci m' e' d).1 * (2 ^ (-(-1074 : Int)).toNat * T ((sci m' e' d).2 - d))) (units (-1074) m e * 10 ^ 400) ≤
       2 ^ (-(-1074 : Int)).toNat * T ((sci m' e' d).2 - d) := by
-  obtain ⟨hm52, hm53, he1, he2⟩ := h
-  have hwf : wfn m e := ⟨hm52, hm53, he1, he2⟩
-  have hm0 : m ≠ 0 := by
-    intro h0; subst h0
-    have := two_pow_pos 52; omega
-  obtain ⟨hk1, hk2⟩ := kbounds m e hwf
+  obtain ⟨hk1, hk2⟩ := kboundsE m e d h hd
+  obtain ⟨hm0, hm53, he1, he2, _⟩ := h
   obtain ⟨s1, s2⟩ := floorLog10_spec m e hm0 hm53 (by omega) (by omega)
   generalize hk : floorLog10 m e = k at *
   -- the rounded value is a number of the format
@@ -749,9 +792,20 @@ theorem sci_core (m : Nat) (e : Int) (h : wfn m e) (d : Nat) (hd : d ≤ 12) (m'
       refine ⟨a, b, c, fun hne => h4 ?_⟩
       exact Nat.mul_ne_zero hne (Nat.ne_of_gt (ten_pow_pos _))
   obtain ⟨hm', he1', he2', hnz⟩ := hnorm
-  have hXbig : 2 ^ 52 ≤ units (-1074) m e := by
-    show 2 ^ 52 ≤ m * 2 ^ (e - (-1074)).toNat
-    exact Nat.le_trans hm52 (Nat.le_mul_of_pos_right _ (two_pow_pos _))
+  -- one unit of the last digit emitted is at least twenty subnormal steps
+  have hB20 : 20 * 10 ^ 400 ≤ 2 ^ (-(-1074 : Int)).toNat * T (k - d) := by
+    have eU : (-(-1074 : Int)).toNat = 1074 := by decide
+    have e1 : k - (d : Int) = -322 + ((k - (d : Int) + 322).toNat : Int) := by omega
+    rw [eU, e1, T_add (-322) _ (by decide)]
+    have t1 : T (-322) = 10 ^ 78 := by decide +kernel
+    have t2 : (10 : Nat) ^ 400 = 10 ^ 322 * 10 ^ 78 := by decide +kernel
+    rw [t1, t2]
+    have a1 : 20 * (10 ^ 322 * 10 ^ 78) ≤ 2 ^ 1074 * 10 ^ 78 := by
+      rw [← Nat.mul_assoc]; exact Nat.mul_le_mul_right _ pow_factsE.2
+    have a2 : 2 ^ 1074 * 10 ^ 78 ≤ 2 ^ 1074 * (10 ^ 78 * 10 ^ (k - (d : Int) + 322).toNat) := by
+      apply Nat.mul_le_mul_left
+      exact Nat.le_mul_of_pos_right _ (ten_pow_pos _)
+    exact Nat.le_trans a1 a2
   have hYsub : e' = -1074 → units (-1074) m' e' = m' := by
     intro h; subst h; simp [units]
   -- everything on the common scale
@@ -913,16 +967,17 @@ theorem sci_core (m : Nat) (e : Int) (h : wfn m e) (d : Nat) (hd : d ≤ 12) (m'
       rcases hnz hn0pos with h | h
       · have := pow_facts.2.2.1
         omega
-      · -- r is subnormal: its significand is its value in units, still above 10^13
+      · -- r is subnormal: its significand is its value in units, within half a unit of the last
+        -- digit emitted of `n0 ≥ 10^d` such units, each worth twenty subnormal steps or more
         have hY : Y = m' := hYsub h
         have a1 : G * (U * T (k - d)) ≤ n0 * (U * T (k - d)) := Nat.mul_le_mul_right _ f1
         have a2 : U * T (k - d) ≤ G * (U * T (k - d)) := Nat.le_mul_of_pos_left _ hG
-        have a3 : X * S < 20 * Y * S := by
+        have a3 : G * (20 * S) ≤ G * (U * T (k - d)) := Nat.mul_le_mul_left _ hB20
+        have a4 : G * (20 * S) = 2 * (10 * G * S) := by grind
+        have a5 : 10 * G * S ≤ Y * S := by
           unfold absdiff at hoptx f3
-          have : 20 * Y * S = 20 * (Y * S) := by grind
           omega
-        have a4 : X < 20 * Y := Nat.lt_of_mul_lt_mul_right a3
-        have := pow_facts.2.2.2
+        have a6 : 10 * G ≤ Y := Nat.le_of_mul_le_mul_right a5 hS0
         omega
     rw [hBB] at h1 h2 hyc
     have hoptx' := hoptx
